@@ -30,6 +30,24 @@ func init() {
 // "lower@!CaseSensitive", "trim@!StrictRouting", "unescape@UnescapePath", "rmescape".
 // role is decided by roleOf(arg value) -> "pattern" | "path" | "".
 func normForm(f *ssa.Function, roleOf func(v ssa.Value) string) map[string]map[string]ssa.Instruction {
+	// the function itself plus the helpers only it uses (statements moved into a function of their own);
+	// shared utilities such as getGroupPath trim for their own purposes and are not part of the normal form
+	out := map[string]map[string]ssa.Instruction{"pattern": {}, "path": {}}
+	for _, g := range append([]*ssa.Function{f}, privateHelpersOf(f)...) {
+		var part map[string]map[string]ssa.Instruction
+		withoutHelpers(func() { part = normFormOne(g, roleOf) })
+		for role, m := range part {
+			for k, v := range m {
+				if _, ok := out[role][k]; !ok {
+					out[role][k] = v
+				}
+			}
+		}
+	}
+	return out
+}
+
+func normFormOne(f *ssa.Function, roleOf func(v ssa.Value) string) map[string]map[string]ssa.Instruction {
 	out := map[string]map[string]ssa.Instruction{"pattern": {}, "path": {}}
 	family := func(name string) string {
 		switch {
@@ -66,7 +84,9 @@ func normForm(f *ssa.Function, roleOf func(v ssa.Value) string) map[string]map[s
 		// role from any argument
 		role := ""
 		for _, a := range c.Common.Args {
-			if rr := roleOf(a); rr != "" {
+			rr := ""
+			withHelpers(func() { rr = roleOf(a) }) // the operand may arrive through a helper's parameter
+			if rr != "" {
 				role = rr
 				break
 			}
@@ -83,7 +103,7 @@ func normForm(f *ssa.Function, roleOf func(v ssa.Value) string) map[string]map[s
 				}
 				tgt := cb.br.If.Block().Succs[s]
 				// the edge must be the only way into tgt for "dominates" to mean "guarded by"
-				if len(tgt.Preds) == 1 && tgt.Dominates(c.Block()) {
+				if len(tgt.Preds) == 1 && dom(tgt, c.Block()) {
 					if want {
 						guards = append(guards, cb.field)
 					} else {
